@@ -32,6 +32,7 @@
 
    Records of the pinned (pre-fix) code kept for the refutation theorems:
    [gerr_is_gen false] = Is without the comparability guard on srcError (panics);
+   [clone_base_orig]   = CloneBase before laterSrcErrors existed (a second Convert was lost);
    [ext_wiring_orig]   = template whose SrcS stanza passes "" instead of src.                  *)
 From Coq Require Import NArith List Bool.
 From GT Require Import Base.GErrStr.
@@ -52,7 +53,9 @@ Inductive val :=
 Record gerr := mkG {
   g_name : str; g_msg : str; g_src : str; g_dtag : str;
   g_stack : option N;          (* Some site = non-empty stack made by the call at [site] *)
-  g_fref : val; g_serr : val; g_isfac : bool }.
+  g_fref : val; g_serr : val;
+  g_later : list val;          (* laterSrcErrors: errors of further Convert calls *)
+  g_isfac : bool }.
 
 (* one extra field of an extension struct, with its parsed `gerror:"name,opts"` tag *)
 Record xfield := mkF {
@@ -123,7 +126,10 @@ Definition clone_base (base : gerr) (base_ptr err_ptr : val) (stt : stack_type)
   (* handle error inheritance (unreachable: fref holds a non-nil pointer) *)
   let fref1 := if is_nil fref && g_isfac base then err_ptr else fref in
   let serr1 := if is_nil (g_serr base) && negb (is_nil serr) then serr else g_serr base in
-  let clone := mkG (g_name base) msg1 src1 dtag1 (g_stack base) fref1 serr1 false in
+  (* a further converted error is appended (to a fresh slice) when srcError is already set *)
+  let later1 := if is_nil (g_serr base) && negb (is_nil serr) then g_later base
+                else if negb (is_nil serr) then g_later base ++ [serr] else g_later base in
+  let clone := mkG (g_name base) msg1 src1 dtag1 (g_stack base) fref1 serr1 later1 false in
   if has_stack clone || stack_type_eqb stt NoStack
      || (stack_type_eqb stt SourceStack && nonempty src1)
   then clone
@@ -131,8 +137,15 @@ Definition clone_base (base : gerr) (base_ptr err_ptr : val) (stt : stack_type)
     (* clone.stack = makeStack(stackType, defaultSkip) *)
     if is_empty src1
     then mkG (g_name base) msg1 derived dtag1
-             (if stack_type_eqb stt SourceStack then None else Some site) fref1 serr1 false
-    else mkG (g_name base) msg1 src1 dtag1 (Some site) fref1 serr1 false.
+             (if stack_type_eqb stt SourceStack then None else Some site) fref1 serr1 later1 false
+    else mkG (g_name base) msg1 src1 dtag1 (Some site) fref1 serr1 later1 false.
+
+(* the code before the second-convert repair: no list of later converted errors *)
+Definition drop_later (g : gerr) : gerr :=
+  mkG (g_name g) (g_msg g) (g_src g) (g_dtag g) (g_stack g) (g_fref g) (g_serr g) [] (g_isfac g).
+Definition clone_base_orig (base : gerr) (base_ptr err_ptr : val) (stt : stack_type)
+           (dtag src ext : str) (serr : val) (site : N) (derived : str) : gerr :=
+  drop_later (clone_base base base_ptr err_ptr stt dtag src ext serr site derived).
 
 (* ---------------------------------------------------------------- the 19 Factory methods *)
 Inductive method :=
@@ -317,10 +330,21 @@ Fixpoint derive_trace (xw : method -> wiring) (st : store) (v : val) (ch : list 
 
 (* factory construction *)
 Definition new_gerr (name msg src : str) (isfac : bool) : gerr :=
-  mkG name msg src [] None VNil VNil isfac.
+  mkG name msg src [] None VNil VNil [] isfac.
 (* FactoryOf sets isFactory on the embedded record *)
 Definition factory_of (g : gerr) : gerr :=
-  mkG (g_name g) (g_msg g) (g_src g) (g_dtag g) (g_stack g) (g_fref g) (g_serr g) true.
+  mkG (g_name g) (g_msg g) (g_src g) (g_dtag g) (g_stack g) (g_fref g) (g_serr g) (g_later g) true.
+
+(* FactoryOf applied to an existing value: `err._embededGError().isFactory = true` on the
+   record of cell i (the only write gerror ever makes to an existing object; programs do it
+   while building their package-level factories) *)
+Definition fac_cell (c : cell) : cell := mkC (factory_of (c_g c)) (c_x c).
+Fixpoint set_isfac (st : store) (i : nat) : store :=
+  match st, i with
+  | [], _ => []
+  | c :: r, O => fac_cell c :: r
+  | c :: r, S k => c :: set_isfac r k
+  end.
 
 (* ---------------------------------------------------------------- Error() *)
 Definition error_prefix (g : gerr) : str :=
@@ -353,6 +377,19 @@ Definition extract_fref (st : store) (err : val) : val :=
       end
   end.
 
+(* isConvertedFrom(converted, err): converted != nil, comparable (when guarded), == err *)
+Definition converted_from (guard : bool) (s err : val) : res bool :=
+  if is_nil s then Ok false
+  else if guard && negb (comparable s) then Ok false
+  else iface_eq s err.
+
+(* the loop over e.laterSrcErrors *)
+Fixpoint later_match (guard : bool) (l : list val) (err : val) : res bool :=
+  match l with
+  | [] => Ok false
+  | s :: r => bind_true (converted_from guard s err) (fun _ => later_match guard r err)
+  end.
+
 (* GError.Is (pointer receiver) with receiver = the GError of cell i.  [guard] = the repaired code's
    comparability test in front of `e.srcError == err`. *)
 Fixpoint gerr_is_gen (guard : bool) (fuel : nat) (st : store) (i : nat) (err : val) : res bool :=
@@ -366,9 +403,8 @@ Fixpoint gerr_is_gen (guard : bool) (fuel : nat) (st : store) (i : nat) (err : v
           bind_true (if g_isfac g then iface_eq (VG i) (extract_fref st err) else Ok false) (fun _ =>
           bind_true (iface_eq (VG i) err) (fun _ =>
           bind_true (if is_nil (g_fref g) then Ok false else iface_eq (g_fref g) err) (fun _ =>
-          bind_true (if is_nil (g_serr g) then Ok false
-                     else if guard && negb (comparable (g_serr g)) then Ok false
-                     else iface_eq (g_serr g) err) (fun _ =>
+          bind_true (converted_from guard (g_serr g) err) (fun _ =>
+          bind_true (later_match guard (g_later g) err) (fun _ =>
           match as_gerror err with
           | None => Ok false
           | Some _ =>
@@ -376,7 +412,7 @@ Fixpoint gerr_is_gen (guard : bool) (fuel : nat) (st : store) (i : nat) (err : v
               | VNil => Ok false
               | u => gerr_is_gen guard fuel' st i u
               end
-          end))))
+          end)))))
       end
   end.
 
